@@ -18,7 +18,7 @@ git init -q . 2>/dev/null; git apply $D/patch.diff || { echo "PATCH DOES NOT APP
 PYTHONPATH=$SCR /venv/bin/python $D/$DEMO > $D/demo_patched.out 2>&1; P=$?
 echo "demo exit: clean=$C patched=$P"
 cd /verif
-DASSH_REPO=$SCR ./check $PROP --tier quick > $D/check.out 2>&1; K=$?
+VERIF_EVIDENCE_DIR=$SCR/evidence DASSH_REPO=$SCR ./check $PROP --tier quick > $D/check.out 2>&1; K=$?
 echo "check exit=$K"; grep -c VIOLATION $D/check.out; tail -2 $D/check.out | cut -c1-250
 rm -rf $SCR
 echo "{\"demo_clean_exit\": $C, \"demo_patched_exit\": $P, \"check_exit\": $K}" > $D/result.json
